@@ -11,6 +11,15 @@ every later call; a named state is restored several times with changes in betwee
 (each exactly once, as `gcode_core` does) after the stack and the current transform have moved on.  The generated
 functions are pure values, so any sharing in the real objects shows up as a difference.
 
+The transform context managers of `gscrib/gcode_core.py` (`GCodeCore.current_transform` / `named_transform`, translated as
+enter / exit pairs) are driven on a real `GCodeCore` whose `transform` *is* the transformer under test: `enter` is
+`__enter__` of `g.current_transform()` / `g.named_transform(name)` (known, unknown and blank names), followed by the same
+random transformer calls as above (saves, restores that empty the stack, names saved / deleted inside the block), `leave`
+is `__exit__` of the innermost open block - with `(None, None, None)` or with a live exception raised for the purpose, as
+the `with` statement calls it (the exception must not be swallowed) - blocks are nested up to three deep, both kinds
+mixed, and every block still open at the end of a case is left.  After every call the whole transformer is compared, so
+what a block puts back (current transform, unnamed stack) and what it does not (named states) are both checked.
+
 Numbers are small dyadic rationals; the model computes exactly, numpy in doubles (LAPACK inverse): numeric fields are
 compared within 1e-9 relative to the largest entry of the matrix, everything else literally.  (See `tie_state.py` for
 the role of this run: it only runs when the tree under test translates to the committed `Gen/XformSrc.lean`.)"""
@@ -65,6 +74,8 @@ def gen_case(rng):
     """a sequence of direct calls; names and stack depth are tracked so that most restores / deletes find something"""
     ops = []
     frames, depth, saved = 0, 0, []
+    blocks = []                      # the unnamed-stack depth on entry of every open `with` block (innermost last)
+    p_ctx = rng.choice([0.0, 0.0, 0.15, 0.3])
 
     def a_name(known):
         if known and saved and rng.random() < 0.8:
@@ -73,6 +84,25 @@ def gen_case(rng):
         return rng.choice(NAMES)
 
     for _ in range(rng.choice([4, 8, 12, 16])):
+        if rng.random() < p_ctx:
+            if blocks and (len(blocks) >= 3 or rng.random() < 0.45):
+                ops.append(("leave", rng.random() < 0.4))
+                depth = blocks.pop()
+            elif rng.random() < 0.5:
+                ops.append(("enter", None))
+                blocks.append(depth)
+            else:
+                n = a_name(True)
+                while n is None:
+                    n = rng.choice(NAMES)
+                ops.append(("enter", n))
+                if n.strip():
+                    if n.strip() in saved:
+                        blocks.append(depth)
+                elif depth:                 # a blank name pops the unnamed stack (after the frame was copied)
+                    blocks.append(depth)
+                    depth -= 1
+            continue
         r = rng.random()
         if r < 0.12:
             ops.append(("translate", [coord(rng) for _ in range(3)]))
@@ -127,10 +157,15 @@ def gen_case(rng):
                 ops.append(("revert",))
                 frames -= 1
         elif r < 0.985:
+            if blocks:                   # the open blocks belong to the builder at hand
+                continue
             ops.append(("new",))
             depth, saved = 0, []
         else:
             ops.append(("tnew", None if rng.random() < 0.2 else gen_matrix(rng), [coord(rng) for _ in range(3)]))
+    while blocks:
+        ops.append(("leave", rng.random() < 0.4))
+        blocks.pop()
     return ops
 
 
@@ -146,6 +181,17 @@ def probes():
         [t1, ("save", None), t2, ("save", None), ("copy",), ("restore", None), s2, ("restore", None), pv, ("revert",),
          ("restore", None), ("restore", None), ("restore", None)],
         [("save", "a"), ("copy",), ("restore", "a"), t1, ("save", "a"), ("revert",), ("restore", "a"), ("delete", "a "), ("delete", "a")],
+        # with current_transform(): the body's changes, pushes and pops are undone, a name saved inside stays
+        [t1, ("save", None), ("enter", None), s2, pv, ("save", None), ("save", "in"), ("restore", None), ("restore", None), ("restore", None),
+         ("leave", False), ("restore", "in"), ("restore", None), ("restore", None)],
+        # with named_transform("a"): the frame is the state *before* the named one is installed; the user's own save_state() /
+        # restore_state() around and inside the block keep their slots (the unnamed stack is not the block's scratch space)
+        [t1, ("save", "a"), t2, ("save", None), s2, ("enter", " a"), ("apply", [F(1), None, F(1)]), pv, ("save", None), t1, ("leave", True),
+         ("apply", [F(1), None, F(1)]), ("restore", None), ("restore", None)],
+        # nesting, both kinds; leaving by an exception; unknown / blank names do not enter a block
+        [t1, ("save", "a"), t2, ("save", "b"), ("enter", "a"), s2, ("enter", "b"), pv, ("enter", None), ("delete", "a"), ("enter", "a"),
+         ("enter", "zz"), ("enter", "  "), ("save", None), ("enter", "\t"), t1, ("leave", True), ("leave", False), ("leave", True), ("leave", False),
+         ("restore", "b"), ("restore", None)],
     ]
 
 
@@ -166,6 +212,10 @@ def line(op, block=None) -> str:
         return "chain " + ("other" if op[1] is None else qv([c for row in op[1] for c in row]))
     if k in ("save", "restore", "delete"):
         return f"{k} {hexname(op[1])}"
+    if k == "enter":
+        return "enter" if op[1] is None else f"enter {hexname(op[1])}"
+    if k == "leave":
+        return "leave"
     if k == "tnew":
         return "tnew " + ("other" if op[1] is None else qv([c for row in op[1] for c in row])) + " " + qv(op[2])
     return k
@@ -183,14 +233,32 @@ def dump(tr):
             "named": [(k, dump_obj(t)) for k, t in tr._named_transforms.items()]}
 
 
+class BodyError(Exception):
+    """raised inside a `with` block by the harness (a block left by an exception)"""
+
+
 class Impl:
+    """`self.tr` is the transformer of a real `GCodeCore` (`g.transform`), so that the same object can be driven directly and
+    through `g.current_transform()` / `g.named_transform(name)`"""
+
     def __init__(self):
         from gscrib.geometry.transformer import CoordinateTransformer
 
         X.install_rotation_tap()
         self.cls = CoordinateTransformer
-        self.tr = CoordinateTransformer()
         self.frames = []
+        self.open = []               # context manager objects of the `with` blocks that are open, innermost last
+        self.renew()
+
+    def renew(self):
+        from gscrib.gcode_core import GCodeCore
+
+        if self.open:
+            raise core.Infra("`new` inside a with block")
+        self.g = GCodeCore(output=None, print_lines=False)
+        self.tr = self.g.transform
+        if type(self.tr) is not self.cls or self.g.transform is not self.tr:
+            raise core.Infra("GCodeCore.transform is not a CoordinateTransformer of its own")
 
     def call(self, op):
         """-> (outcome, value); for `rotate`, self.block is the matrix scipy returned to the transformer"""
@@ -204,7 +272,25 @@ class Impl:
         self.block = X._ROT["last"] = None
         try:
             if k == "new":
-                self.tr = self.cls()
+                self.renew()
+            elif k == "enter":
+                cm = self.g.current_transform() if op[1] is None else self.g.named_transform(op[1])
+                got = cm.__enter__()             # raises: no block entered
+                self.open.append(cm)
+                if got is not self.tr or self.g.transform is not self.tr:
+                    return "yielded-another-object", None
+            elif k == "leave":
+                cm = self.open.pop()
+                if op[1]:
+                    try:
+                        raise BodyError()
+                    except BodyError as e:       # what the `with` statement does with an exception of its body
+                        if cm.__exit__(type(e), e, e.__traceback__):
+                            return "swallowed", None
+                elif cm.__exit__(None, None, None):
+                    return "swallowed", None
+                if self.g.transform is not self.tr:
+                    return "transformer-replaced", None
             elif k == "translate":
                 self.tr.translate(*fl(op[1]))
             elif k == "scale":
@@ -309,9 +395,15 @@ def validate(rng, cases: int) -> dict:
         starts.append(len(lines))
         lines.append("reset")
         expect.append(None)
-        for op in ops:
+        queue = list(ops)
+        while queue or impl.open:
+            # the generator's bookkeeping of open blocks is approximate (`revert` changes the stack depth behind its back):
+            # the real object decides whether there is a block to leave, and every block still open at the end is left
+            op = queue.pop(0) if queue else ("leave", False)
+            if (op[0] == "leave" and not impl.open) or (op[0] == "new" and impl.open):
+                continue
             outcome, value = impl.call(op)
-            key = f"{op[0]}:{outcome}"
+            key = f"{op[0]}{'-raised' if op[0] == 'leave' and op[1] else ''}:{outcome}"
             outcomes[key] = outcomes.get(key, 0) + 1
             lines.append(line(op, impl.block))
             expect.append((op, outcome, value, dump(impl.tr)))
